@@ -167,6 +167,48 @@ IGNORED_KEYS = {"size"}
 CHILD_ONLY = {"DiagLinearOperator", "ConstantDiagLinearOperator", "IdentityLinearOperator"}
 
 
+_PROBES = None
+
+
+def probes():
+    """history-independent raise behaviours of the library under test that decide raised-or-not in the model (they are
+    C05-type defects of inv_quad_logdet overrides, repaired by proposed fixes): found by calling the methods on fresh
+    objects, once per process, under explicitly set settings"""
+    global _PROBES
+    if _PROBES is not None:
+        return _PROBES
+    from linear_operator import settings as S
+    O = LO()
+
+    def raises(f, exc):
+        try:
+            f()
+            return False
+        except exc:
+            return True
+        except Exception:
+            return False
+    A2 = torch.tensor([[[3.0, 1.0], [1.0, 2.0]], [[4.0, 1.0], [1.0, 5.0]]], dtype=DT)
+    A3 = torch.tensor([[4.0, 1.0, 0.0], [1.0, 5.0, 1.0], [0.0, 1.0, 6.0]], dtype=DT)
+    blk = lambda: O.BlockDiagLinearOperator(O.DenseLinearOperator(A2.clone()))                            # noqa: E731
+    rep = lambda: O.BatchRepeatLinearOperator(O.DenseLinearOperator(A3.clone()), torch.Size((2,)))         # noqa: E731
+    r4, r3 = torch.ones(4, 1, dtype=DT), torch.ones(2, 3, 1, dtype=DT)
+    p = {}
+    with S.max_cholesky_size(0), S.fast_computations(log_prob=True), S.min_preconditioning_size(2000):
+        p["block_norhs"] = raises(lambda: blk().logdet(), RuntimeError)
+        p["block_nologdet"] = raises(lambda: blk().inv_quad_logdet(r4, logdet=False), TypeError)
+        p["rep_norhs"] = raises(lambda: rep().logdet(), RuntimeError)
+        p["rep_nologdet"] = raises(lambda: rep().inv_quad_logdet(r3, logdet=False), TypeError)
+    with S.max_cholesky_size(800), S.fast_computations(log_prob=True):
+        cat = O.DenseLinearOperator(A3.clone()).cat_rows(torch.full((1, 3), 0.1, dtype=DT), torch.full((1, 1), 6.0, dtype=DT),
+                                                         generate_roots=False)
+        p["cat_to"] = isinstance(cat, O.CatLinearOperator) and raises(lambda: cat.logdet(), AttributeError)
+        p["lanczos_1x1"] = raises(lambda: O.DenseLinearOperator(torch.tensor([[2.0]], dtype=DT)).diagonalization(method="lanczos"),
+                                  Exception)
+    _PROBES = p
+    return p
+
+
 def children(op):
     L = LO().LinearOperator
     out = [a for a in op._args if isinstance(a, L)]
@@ -189,7 +231,8 @@ def profile_of(op, ids):
     p = {"cls": name, "td_name": None, "td_kids": [], "chol_ignore": False, "eig": None, "kron": None, "deleg": None,
          "cm_root": None,
          "precond": False, "queries_off": set(), "child_only": False,
-         "sum": isinstance(op, O.SumLinearOperator), "iqld_to": name == "CatLinearOperator"}
+         "sum": isinstance(op, O.SumLinearOperator), "iqld_to": name == "CatLinearOperator" and probes()["cat_to"],
+         "q_norhs": False, "q_nologdet": False, "q_lanczos1": probes()["lanczos_1x1"]}
     c, ign, nm, w = cached_info(cls.to_dense)
     if c:
         if ign or nm is not None:
@@ -230,6 +273,9 @@ def profile_of(op, ids):
     if name in ("BlockDiagLinearOperator", "BatchRepeatLinearOperator"):
         p["kron"] = [ids[id(op.base_linear_op)]]
         p["deleg"] = (name == "BlockDiagLinearOperator")
+        pr = probes()
+        p["q_norhs"] = pr["block_norhs"] if p["deleg"] else pr["rep_norhs"]
+        p["q_nologdet"] = pr["block_nologdet"] if p["deleg"] else pr["rep_nologdet"]
     if name == "AddedDiagLinearOperator":
         p["precond"] = True
         if isinstance(op._diag_tensor, O.ConstantDiagLinearOperator):
@@ -572,6 +618,7 @@ class World:
         self.settings = SettingsStack()
         self.opaque = False
         self.root_expr = root_expr
+        probes()        # while the settings are at their defaults
         op = opbuild.build(root_expr, DT)
         self.root = self.register(op, opbuild.dense(root_expr, DT), expr=root_expr)
 
